@@ -264,6 +264,16 @@ func getParentMethodTWithVisited(
 	return nil
 }
 
+// GetOwnMethodT and GetOwnClassMethodT return the entry declared on the class
+// itself, without the ancestor and Object fallbacks of GetMethodT.
+func GetOwnMethodT(frame, targetClass, targetMethod string, isPrivate bool) *T {
+	return TFrame[methodTFrameKey(frame, targetClass, targetMethod, isPrivate)]
+}
+
+func GetOwnClassMethodT(frame, targetClass, targetMethod string, isPrivate bool) *T {
+	return TFrame[classMethodTFrameKey(frame, targetClass, targetMethod, isPrivate)]
+}
+
 func GetMethodT(frame, targetClass, targetMethod string, isPrivate bool) *T {
 	methodT, ok :=
 		TFrame[methodTFrameKey(frame, targetClass, targetMethod, isPrivate)]
